@@ -10,7 +10,7 @@ from . import api
 OLD = api.old
 SPECIAL_NAMES = {}
 
-MAX_UNROLL_SYMBOLIC = 80
+MAX_UNROLL_SYMBOLIC = 12
 
 
 def _models():
